@@ -120,4 +120,17 @@ Definition run_Pypi (kind : bytes) (a : sx) : option sx :=
               end
           | _ => badcase
           end)
+  else if bytes_eqb kind [112;121;112;105;95;115;116;97;116;115] (* pypi_stats: number of backtracks, model only *) then
+    Some (match a with
+          | SL [r; tab; orc] =>
+              match dec_vk r, dec_table tab orc with
+              | Some root, Some t =>
+                  match tab_backtracks t root max_rounds_fuel with
+                  | Ok n => SI (Z.of_nat n)
+                  | _ => SI (-1)
+                  end
+              | _, _ => badcase
+              end
+          | _ => badcase
+          end)
   else None.
